@@ -106,6 +106,97 @@ def oracle_sweep(line):
     return None
 
 
+MB = ['a', 'b', ' ', 'é', 'ت', '€', '中', '😀', 'x\u0301', 'Z', '_', '.', '\t']
+
+
+def gen_text(rng):
+    lines = []
+    for i in range(rng.range(1, 5)):
+        n = rng.choice([0, 1, 2, 5, 9, 14])
+        lines.append(''.join(rng.choice(MB) for _ in range(n)))
+    return ('\n'.join(lines) + '\n').encode('utf-8')
+
+
+def gen_vi_prog(rng):
+    """A character-wise editing program over multi-byte text (no raw-byte insertion: no ^V)."""
+    atoms = []
+    motions = ['h', 'l', 'j', 'k', 'w', 'b', 'e', '0', '$', '^', 'W', 'B', 'E', 'fa', 'Fb', 't ', 'T ', ';', ',', '%', 'G', '1G', '2|', '5|']
+    for i in range(rng.range(2, 14)):
+        t = rng.below(20)
+        cnt = rng.choice(['', '', '', '2', '3', '7'])
+        ch = rng.choice(MB)
+        txt = ''.join(rng.choice(MB) for _ in range(rng.range(1, 4))).replace('\t', ' ')
+        if t < 6:
+            atoms.append(cnt + rng.choice(motions))
+        elif t == 6:
+            atoms.append(cnt + 'x')
+        elif t == 7:
+            atoms.append(cnt + 'X')
+        elif t == 8:
+            atoms.append(rng.choice(['d', 'c', 'y', 'g~', 'gu', 'gU']) + cnt + rng.choice(motions) + '\x1b')
+        elif t == 9:
+            atoms.append(cnt + 'r' + (ch if ch != '\t' else 'q'))
+        elif t == 10:
+            atoms.append(cnt + '~')
+        elif t == 11:
+            atoms.append(rng.choice(['i', 'a', 'I', 'A', 'o', 'O', 's', 'S', 'C']) + txt + '\x1b')
+        elif t == 12:
+            atoms.append(rng.choice(['p', 'P', 'J', 'D', 'Y', 'u', '.', '\x12']))
+        elif t == 13:
+            atoms.append('i' + txt + rng.choice(['\x08', '\x17', '\x15', '']) + txt + '\x1b')
+        elif t == 14:
+            atoms.append(rng.choice(['dd', 'yy', 'cc' + txt + '\x1b', '>>', '<<']))
+        elif t == 15:
+            atoms.append(':s/%s/%s/g\n' % (rng.choice(['a', 'é', 'x*', '.', '中', ' ']), rng.choice(['', 'Q', 'é', '\\0\\0', '€'])))
+        elif t == 16:
+            atoms.append('"a' + rng.choice(['yl', 'yw', 'dl', 'p', 'P']))
+        else:
+            atoms.append(cnt + rng.choice(['l', 'h']) + rng.choice(['x', 'rZ', '~', 'i' + ch.replace('\t', ' ') + '\x1b']))
+    return atoms
+
+
+def run_programs(ctx, res):
+    """Character-wise editing programs on the real binary: the written file must stay valid UTF-8."""
+    rng = ctx.rng.fork('viprogs')
+    vi = vlib.build_vi()
+    cases = []
+    for i in range(400 if ctx.quick else 6000):
+        cases.append((gen_text(rng), gen_vi_prog(rng)))
+
+    def one(case, atoms=None):
+        text, prog = case
+        prog = prog if atoms is None else atoms
+        keys = ''.join(prog).encode('utf-8') + b'\x1b:w! out\n:q!\n'
+        return vlib.run_vi(vi, keys, files={'f': text}, args=['f'], readback=['out'], rows=10, cols=40, timeout=20)
+
+    def invalid(b):
+        try:
+            b.decode('utf-8')
+            return False
+        except UnicodeDecodeError:
+            return True
+
+    outs = vlib.pmap(lambda c: one(c), cases)
+    for case, r in zip(cases, outs):
+        res.evaluations += 1
+        res.count('vi editing programs')
+        out = r.files.get('out')
+        if r.timed_out or out is None:
+            r2 = vlib.run_vi(vi, ''.join(case[1]).encode('utf-8') + b'\x1b:w! out\n:q!\n', files={'f': case[0]}, args=['f'], readback=['out'], rows=10, cols=40, timeout=60)
+            out = r2.files.get('out')
+            if out is None:
+                res.count('programs without a written file (ignored here; C05 covers crashes and hangs)')
+                continue
+        res.nontriv('prog:' + ''.join(case[1]))
+        if invalid(out):
+            atoms = vlib.shrink(case[1], lambda a: (lambda o: o is not None and invalid(o))(one(case, a).files.get('out')))
+            res.violation({'what': 'a character-wise editing program turned valid UTF-8 text into invalid UTF-8',
+                           'input': {'file': case[0].hex(), 'keys': [a.encode('utf-8').hex() for a in atoms], 'window': '10x40'},
+                           'observed': one(case, atoms).files.get('out').hex(), 'expected': 'valid UTF-8'})
+    if cases:
+        res.sample({'file': cases[0][0].decode('utf-8'), 'keys': cases[0][1]})
+
+
 def run(ctx):
     res = ctx.res
     rng = ctx.rng
@@ -222,3 +313,5 @@ def run(ctx):
     else:
         res.disagreements.append({'what': 'probe produced %d lines for %d requests' % (len(out_c), nsweep + len(lines))})
     res.extra['exhaustive_scalars'] = bool(sweep)
+    if not ctx.replay:
+        run_programs(ctx, res)
